@@ -302,7 +302,7 @@ def c20(ver):
     binp = os.path.join(d, "scale")
     outdir = vd.scratch_dir()
     sizes = [1 << 12, 1 << 14, 1 << 16] if ver.tier == "quick" else [1 << 12, 1 << 14, 1 << 16, 1 << 18, 1 << 20]
-    fams = list(range(37))
+    fams = list(range(61))
     bks = [1, 3] if ver.tier == "quick" else [1, 2, 3]
     jobs = [(f, n, b) for f in fams for n in sizes for b in bks]
     with ThreadPoolExecutor(max_workers=NCPU) as ex:
@@ -338,7 +338,7 @@ def c20(ver):
                                   sample_points=[dict(family=k[2], backend=k[1], points=v) for k, v in list(sorted(table.items()))[:6]])
     import engines
     engines.extra(ver)
-    rule = ("A case is one parse of an adversarial-family input (37 families: folded 1-byte lines, ignored lines, whitespace runs in "
+    rule = ("A case is one parse of an adversarial-family input (61 families: folded 1-byte lines, ignored lines, whitespace runs in "
             "every position, TAB runs/alternation, near-miss blocks every 8/33 bytes, tiny headers with capacity N and 0, 1 MiB-class "
             "target/name/value/reason, leading empty lines, chunk extensions, multi-space delimiters, ...) at several sizes x forced "
             "backend, plus every other entry point of the kind, a cut at 2/3, and large grammar-random inputs. Oracle 1 (hook "
